@@ -225,7 +225,8 @@ ORACLES = {'C01': oracle_c01, 'C11': oracle_c11, 'C12': oracle_c12}
 # workloads that are outside a property's quantifier are still driven (the monitors are cheap) but only REPORTED:
 # C12 quantifies over Specs inputs and generated well-formed expressions, C11 over Specs inputs and the C06-C10
 # expressions; neither includes noise.  C01 names the noise pool explicitly.
-REPORT_ONLY = {'C01': (), 'C11': ('noise', 'multi'), 'C12': ('noise',)}
+# wsentity inserts a blank INSIDE an entity expression (no longer a well-formed expression) -> noise-like: judged by C01 only
+REPORT_ONLY = {'C01': (), 'C11': ('noise', 'multi', 'wsentity', 'wsperturb', 'edge'), 'C12': ('noise', 'wsentity', 'wsperturb-cjk')}
 TRACE = {}
 
 
@@ -333,7 +334,7 @@ def run(pid, job, ctx):
         oracle(ctx, mt, cu, q, ref, res, seq)
     lib.install_boundary(cb)
     kind = job['kind']
-    ctx.workload = kind
+    ctx.workload = kind + ('-cjk' if kind == 'wsperturb' and job.get('culture') in ('zh-cn', 'ja-jp') else '')
     if kind == 'corpus':
         cu = job['culture']
         models = [(mt, m) for rn, mt, c, m in lib.models_for(culture=cu) if pid != 'C11' or mt == 'DateTimeModel']
